@@ -95,6 +95,14 @@ def jobs(tier, seed):
                   {"shapes": [F([S(2), S(1)])],
                    "opts": {"cleanups": True, "out_dom": {"*": [5, 6]}}, "checks": ["verdict"]},
                   reach=["C01.no-false-green(events)"], min_paths=4, cost=20, validate=100))
+    # ... registered for an outer layer (the error surfaces when the rule / feature / test run ends)
+    for layer, shape in (("feature", F([S(1), R([S(1)])])), ("rule", F([S(1), R([S(1), S(1)])])), ("testrun", F([S(1), S(1)]))):
+        js.append(Job("cleanupfault.%s" % layer, "vlib.stage1:h_stage1",
+                      {"shapes": [shape], "opts": {"cleanups": True, "cleanup_layer": layer, "undef": False,
+                                # (outside the rule there is no "rule" layer to register for)
+                                "out_dom": {"*": [5, 6], "f0.i0": [0, 0]} if layer == "rule" else {"*": [5, 6]}},
+                       "checks": ["verdict"]},
+                      reach=["C01.no-false-green(events)"], min_paths=4, cost=20, validate=60))
     if tier == "thorough":
         js.append(Job("hookfault2", "vlib.stage1:h_stage1",
                       {"shapes": [F([S(1, tags=["t1"]), O(1, [(1, ["t3"])])], tags=["t0"])],
